@@ -83,6 +83,8 @@ add("rc_3", ["C13"], "t", progs=[P("L", op("decref"), "U", op("freeiflast")), P(
 add("db_1", ["C16", "C01", "C02"], "q", progs=[P("L", "U"), P("L", "U"), P("D")], NV=1)
 add("db_2", ["C16"], "q", progs=[P("L", "U", "L", "U"), P("L", "D", "U"), ], NV=1)
 add("db_3", ["C16"], "t", progs=[P("L", "U", "L", "U"), P("R", "RU"), P("D", "D")], NV=1)
+add("db_dc", ["C16"], "q", progs=[P("L", cvl(v=1), "U"), P("L", "set11", "S", "U"), P("DC")], NV=1)
+add("db_dc2", ["C16"], "q", progs=[P("L", cvl(v=1, dl=1), "U"), P("DC", "L", "set11", "B", "U", "DC")], NV=1, MaxNow=1)
 add("db_cv", ["C16"], "t", progs=[P("L", cvl(v=1), "U"), P("L", "set11", "S", "U"), P("D")], NV=1)
 # ---- bounded overtaking (C14): victim + one barger that loops for ever; K is the build's LONG_WAIT_THRESHOLD (set by the check) ----
 add("st_ww", ["C14"], "q", progs=[P("L", "U"), P("L", "U")], NV=1, Loopers=[2])
@@ -113,7 +115,8 @@ RANDOM = {
             dict(progs=[P("L", mwt(4), "U"), P("R", mwt(1), "RU"), P("L", cvl(v=1), "U"), P("L", "UW", "L", "set11", "B", "U")], NV=1, conds=CS)],
     "C13": [dict(progs=[P("L", wnl(v=1, dl=1), "U"), P("L", wnl(v=1, dl=2), "U"), P("L", "set11", "U", "B"), P("L", "U", "S")], NV=1),
             dict(progs=[P("L", op("decref"), "U", op("freeiflast"))] * 4, NV=1)],
-    "C16": [dict(progs=[P("L", "U", "L", "U"), P("R", "RU", "L", "U"), P("L", cvl(v=1, dl=1), "U"), P("D", "D", "L", "set11", "S", "U"), P("D", "D")], NV=1)],
+    "C16": [dict(progs=[P("L", "U", "L", "U"), P("R", "RU", "L", "U"), P("L", cvl(v=1, dl=1), "U"), P("D", "D", "L", "set11", "S", "U"), P("D", "D")], NV=1),
+            dict(progs=[P("L", cvl(v=1), "U"), P("L", cvl(v=1, dl=1), "U"), P("DC", "DC", "DC"), P("L", "set11", "B", "U", "DC")], NV=1)],
 }
 
 
